@@ -17,6 +17,8 @@
 (*              through ReadFromURIFunc); UnmarshalJSON of openapi2.T;                   *)
 (*   jm jy jv   and every other writer of the parsed input: the MarshalJSON method, the  *)
 (*              value MarshalYAML hands to a YAML encoder, the T by value;               *)
+(*   jf jk      and the YAML reader on other spellings of the input: flow style (the     *)
+(*              JSON text behind a comment line), all-digit map keys unquoted;           *)
 (*   jo         and the YAML reader with the option IncludeOrigin on;                    *)
 (*   history lines (line.hist.entry # "fresh", DocModel "Receivers and entry points"):   *)
 (*   prior      the prior documents are the ones the spec names and parse / fail as the  *)
@@ -52,15 +54,15 @@ FirstOK(line) == IF Generated(line) THEN FirstTripOK(line.ver, line.in, line.obs
                  ELSE line.d.src = "yaml" \/ WeakOK(line.obs.j1.v, line.in)
 IsHist(line) == line.hist.entry # "fresh"
 (* the trips the spec demands of a line (a trip the harness did not record is a failed trip) *)
-DocTrips(ver) == IF ver = 3 THEN {"j2", "ja", "jb", "ji", "ju", "jyu", "jp", "jr", "jl", "jm", "jy", "jv", "jo"}
-                 ELSE {"j2", "ja", "ji", "ju", "jv", "jm"}
+DocTrips(ver) == IF ver = 3 THEN {"j2", "ja", "jb", "ji", "jf", "jk", "ju", "jyu", "jp", "jr", "jl", "jm", "jy", "jv", "jo"}
+                 ELSE {"j2", "ja", "ji", "jf", "jk", "ju", "jv", "jm"}
 Later(line) == IF IsHist(line) THEN {"jh"} ELSE DocTrips(line.ver)
 PriorOK(line) ==
    /\ line.hist.entry \in HistEntries(line.ver)
    /\ Len(line.obs.pr) = Len(line.hist.prior)
    /\ \A i \in DOMAIN line.hist.prior :
          LET p == line.hist.prior[i] IN
-         /\ p.name \in PriorNames /\ Same(PriorDoc(line.ver, p.name), p.doc)
+         /\ p.name \in PriorNames(line.ver) /\ Same(PriorDoc(line.ver, p.name), p.doc)
          /\ line.obs.pr[i] = PriorParses(p.name)
 
 Failed(line) ==
